@@ -207,7 +207,8 @@ func runSubSync(c *core.Ctx) {
 			eose := returnsCtor(fn, "NewServerEOSEMsg")
 			sub := an.PathOf(ci.Common().Args[1])
 			good = len(eose) == 1 && an.InstrDominates(ci, eose[0]) &&
-				strings.Contains(sub, "newSubscriber("+sess+","+msgP+",") && assertedType(fn, ci.Block(), msgP) == "ClientReqMsg"
+				strings.Contains(sub, "ReqID="+sess+",") && strings.Contains(sub, "SubscriptionID="+msgP+".SubscriptionID") &&
+				strings.Contains(sub, "NewReqFiltersEventLimitMatcher("+msgP+".ReqFilters)") && assertedType(fn, ci.Block(), msgP) == "ClientReqMsg"
 			why = fmt.Sprintf("Subscribe(%s) dominates the EOSE: %v", clip(sub, 80), good)
 		}
 		c.Check(good, nil, fname(c, fn), "clause[REQ]", P.Pos(fn.Pos()), "REQ: Subscribe(newSubscriber(session id, msg, queue)) runs synchronously before EOSE is returned", why)
